@@ -369,6 +369,9 @@ pub struct Sim {
     pub stop_inject: bool,
     step_hook: Option<Box<dyn FnMut()>>,
     handler_step_limit: u64,
+    limit_prop: String,
+    forced: Option<(usize, u64, usize)>,
+    pub auto_thaw: bool,
     pub inject_at: Option<(usize, u64)>,
 }
 
@@ -403,6 +406,9 @@ pub fn init(mode: ChooserMode) {
         stop_inject: false,
         step_hook: None,
         handler_step_limit: 0,
+        limit_prop: String::from("C03"),
+        forced: None,
+        auto_thaw: false,
         inject_at: None,
     });
     unsafe {
@@ -729,6 +735,19 @@ impl Sim {
                 k += 1;
             }
         }
+        if k == 0 && self.auto_thaw && self.threads.iter().any(|t| t.frozen) {
+            // an engine-made freeze outlived its purpose (the solo thread finished): thaw
+            for t in self.threads.iter_mut() {
+                t.frozen = false;
+            }
+            log(EV_FREEZE, 0, 9);
+            for i in 0..n {
+                if self.threads[i].state == TState::Runnable {
+                    out[k] = i;
+                    k += 1;
+                }
+            }
+        }
         if k == 0 {
             // quiescence: release the lowest waiting thread
             for i in 0..n {
@@ -906,7 +925,21 @@ impl Sim {
         if k == 0 {
             self.deadlock(me, false);
         }
-        let next = self.pick(me, &cand[..k]);
+        let mut forced_next = None;
+        if let Some((t, until, back)) = self.forced {
+            if self.threads[t].own_steps < until && cand[..k].contains(&t) {
+                forced_next = Some(t);
+            } else {
+                self.forced = None;
+                if cand[..k].contains(&back) {
+                    forced_next = Some(back);
+                }
+            }
+        }
+        let next = match forced_next {
+            Some(t) => t,
+            None => self.pick(me, &cand[..k]),
+        };
         self.threads[next].last_sched = self.steps;
         if next != me {
             self.switches += 1;
@@ -961,7 +994,8 @@ pub fn sp(kind: u16, addr: usize) {
     if depth > 0 && s.handler_step_limit > 0 && s.threads[me].own_steps - s.threads[me].handler_entry_own > s.handler_step_limit {
         let d = s.describe();
         let lim = s.handler_step_limit;
-        report("C03", "unbounded-delivery", &format!("a signal delivery on T{} has made more than {} own steps without returning: {}", me, lim, d), true);
+        let lp = s.limit_prop.clone();
+        report(&lp, "unbounded-delivery", &format!("a signal delivery on T{} has made more than {} own steps without returning: {}", me, lim, d), true);
     }
     if s.step_hook.is_some() {
         let mut h = s.step_hook.take().unwrap();
@@ -1037,6 +1071,45 @@ pub fn set_step_hook(f: Box<dyn FnMut()>) {
 pub fn set_handler_step_limit(n: u64) {
     sim().handler_step_limit = n;
 }
+pub fn set_handler_step_limit_for(n: u64, prop: &str) {
+    let _g = ShimGuard::new();
+    sim().handler_step_limit = n;
+    sim().limit_prop = prop.to_string();
+}
+/// Increment the calling thread's own clock component (engines stamp operation invoke/return).
+pub fn tick() -> VC {
+    let s = sim();
+    let me = s.cur;
+    s.threads[me].vc[me] += 1;
+    s.threads[me].vc
+}
+/// Enter / leave "signal handler context" for an engine-made nested operation that is not a
+/// signal delivery (e.g. a nested channel send standing for a handler's send).
+pub fn enter_handler() {
+    DEPTH.with(|d| d.set(d.get() + 1));
+    let s = sim();
+    let me = s.cur;
+    if s.threads[me].handler_n == 0 {
+        s.threads[me].handler_entry_own = s.threads[me].own_steps;
+    }
+    if s.threads[me].handler_n < 4 {
+        let n = s.threads[me].handler_n;
+        s.threads[me].handler_sigs[n] = 0;
+    }
+    s.threads[me].handler_n += 1;
+}
+pub fn exit_handler() {
+    DEPTH.with(|d| d.set(d.get() - 1));
+    let s = sim();
+    let me = s.cur;
+    s.threads[me].handler_n -= 1;
+}
+pub fn cas_spurious_fired() -> u64 {
+    if shm::is_set() { shm::get().counters[C_CAS_SPUR] } else { 0 }
+}
+pub fn wm_on() -> bool {
+    sim().cfg.wm
+}
 pub fn set_inject_at(t: usize, own: u64) {
     sim().inject_at = Some((t, own));
 }
@@ -1048,6 +1121,16 @@ pub fn thread_own_steps(t: usize) -> u64 {
 }
 pub fn thread_frozen(t: usize) -> bool {
     sim().threads[t].frozen
+}
+/// Scripted set-up step: let thread `t` run (exclusively) until it has made `until_own` own steps
+/// (or cannot run), then come back to the caller.  Consumes no choices.
+pub fn run_until_own(t: usize, until_own: u64) {
+    let me = sim().cur;
+    sim().forced = Some((t, until_own, me));
+    sp(EV_SP, 0);
+}
+pub fn set_auto_thaw(b: bool) {
+    sim().auto_thaw = b;
 }
 pub fn set_stop_inject(b: bool) {
     sim().stop_inject = b;
